@@ -51,6 +51,18 @@ func VerifTransmitDrain(d *DirectTransmission) {
 	old.Wait()
 }
 
+// VerifTransmitDrainStart is VerifTransmitDrain in two steps: the fresh pool is installed before it
+// returns, the returned function waits for the sends handed to the old pool.  It lets the harness
+// call EnqueueEvent while a send is still in flight (held by the scripted upstream).
+func VerifTransmitDrainStart(d *DirectTransmission) (wait func()) {
+	old := d.dispatchPool
+	if old == nil {
+		return func() {}
+	}
+	d.dispatchPool = pool.New().WithMaxGoroutines(maxConcurrentBatches)
+	return old.Wait
+}
+
 // VerifTransmitHoldMap takes the write lock of the batch map and returns its release.  The harness
 // uses it to let several EnqueueEvent calls arrive at the map lookup together: a legitimate
 // schedule (some other enqueue was inserting a batch at that moment).
